@@ -49,12 +49,26 @@ def load_program():
     return P
 
 
-def manual_signatures(repo):
-    """{form name: [parameter names]} parsed from docs/reference/potential_forms.rst"""
-    path = os.path.join(repo, "docs", "reference", "potential_forms.rst")
+def read_rst(path, _depth=0):
+    """text of a documentation source with its `.. include:: file` directives expanded (relative to the including file)"""
     if not os.path.exists(path):
         raise AnalysisError("manual %s vanished" % path)
     txt = open(path, encoding="utf-8").read()
+    if _depth > 5:
+        return txt
+
+    def expand(m):
+        target = os.path.normpath(os.path.join(os.path.dirname(path), m.group(2).strip()))
+        if not os.path.exists(target):
+            raise AnalysisError("%s includes %s, which does not exist" % (path, m.group(2).strip()))
+        return read_rst(target, _depth + 1)
+    return re.sub(r"^([ \t]*)\.\. include::[ \t]*(\S+)[ \t]*$", expand, txt, flags=re.M)
+
+
+def manual_signatures(repo):
+    """{form name: [parameter names]} parsed from docs/reference/potential_forms.rst"""
+    path = os.path.join(repo, "docs", "reference", "potential_forms.rst")
+    txt = read_rst(path)
     out = {}
     for m in re.finditer(r"^:po(?:r)?table signatures?:\s*`+as\.(\w+)`+(.*)$", txt, re.M):
         name, rest = m.group(1), m.group(2)
